@@ -126,6 +126,8 @@ class C07(Check):
             {**base, 'notation': 'batch-getitem', 'other': 'batch-proxy', 'plan': [c('echo', [1, 2]), c('noargs', []), c('ret', [None])]},
             {**base, 'notation': 'proxy', 'other': 'send', 'plan': [c('rpc_err2', []), c('nope', [])]},
             {**base, 'notation': 'proxy', 'other': 'call', 'plan': [c('_us', [1]), n('_us', [])]},
+            {**base, 'notation': 'call', 'other': 'batch-add', 'plan': [c('rpc_err', [])],
+             'behaviours': {'rpc_err': {'kind': 'raise_rpc', 'error': {'cls': 'Custom2006Refined', 'code': None, 'message': None, 'data': {'absent': True}}}}},
             {**base, 'client': 'async', 'dispatcher': 'async', 'notation': 'proxy', 'other': 'batch-proxy', 'plan': [c('_us', [], {'a': [1]})]},
             {**base, 'max_batch_size': 1, 'notation': 'batch-add', 'other': 'batch-getitem', 'plan': [c('echo', [1]), c('echo', [2])]},
             {**base, 'client': 'async', 'dispatcher': 'async', 'max_batch_size': 2, 'notation': 'batch-call', 'other': 'batch-proxy', 'plan': [c('echo', [1]), c('ret', []), c('noargs', [])]},
